@@ -18,7 +18,9 @@ import (
 //
 // options: via=process|msg|bus (entry point), bcast=0|1|mix, seq=1|0 (sequence recording),
 // salt=<n> (concretisation), tkind / bkind (force a tampering / invalidity kind),
-// clause=ab|c (which C27 clauses are evaluated on the real observations).
+// clause=ab|c (which C27 clauses are evaluated on the real observations), pool=all|some|none|mix
+// (how many transactions of a block with a bad block signature are put into the receiver's
+// mempool before it is delivered: pooled transactions are not verified again).
 type drv struct {
 	env  *core.Env
 	beh  *core.Behaviour
@@ -39,6 +41,7 @@ type drv struct {
 	rejected map[int]bool   // blocks whose tampered body the real node rejected by execution
 	pendRej  []int          // blocks the mechanism says failed to connect in this delivery
 	tfate    map[int]string // what became of the tampered body of a block: fate:pid
+	lastTK   string         // tampering kind / pool state of the last tampered delivery
 	stepIdx  int
 }
 
@@ -172,6 +175,22 @@ func (d *drv) Apply(s core.Step) (any, any, error) {
 		}
 		if blk == nil {
 			return nil, nil, fmt.Errorf("no block for %d/%s", b, v)
+		}
+		d.lastTK = ""
+		if v == "t" {
+			d.lastTK = ct.tkind[b]
+			if ct.tkind[b] == "blocksig" {
+				mode := d.env.Opt("pool", "mix")
+				if mode == "mix" {
+					mode = []string{"all", "some", "none"}[d.rnd.Intn(3)]
+				}
+				d.lastTK += "/pooled-" + mode
+				for i, tx := range blk.Txs {
+					if mode == "all" || (mode == "some" && i == 0) {
+						_ = d.n.Pool(tx) // refused when already on the chain: then it is simply not pooled
+					}
+				}
+			}
 		}
 		if err := d.deliver(blk, s, pid); err != nil {
 			return nil, nil, err
@@ -458,6 +477,8 @@ func tclass(k string) string {
 	switch k {
 	case "sig", "payload":
 		return "bad-signature"
+	case "blocksig":
+		return "bad-block-signature"
 	case "dupdrop":
 		return "duplicate-tx"
 	}
@@ -620,7 +641,11 @@ func (d *drv) Signature(b *core.Behaviour, idx int, field string, expected, obse
 	}
 	if field == "ret" {
 		e, o := asMap(expected), asMap(observed)
-		return fmt.Sprintf("conf|%s|ret|v=%s|pid=%s|exp=%v/%v/%v|got=%v/%v/%v", op, v, pid, e["main"], e["orphan"], e["err"], o["main"], o["orphan"], o["err"])
+		tk := ""
+		if v == "t" && d.lastTK != "" {
+			tk = "|tampering=" + d.lastTK
+		}
+		return fmt.Sprintf("conf|%s|ret|v=%s%s|pid=%s|exp=%v/%v/%v|got=%v/%v/%v", op, v, tk, pid, e["main"], e["orphan"], e["err"], o["main"], o["orphan"], o["err"])
 	}
 	if field != "chk" {
 		return ""
